@@ -12,6 +12,7 @@ package c14
 import (
 	"fmt"
 	"io"
+	"net"
 	"os"
 	"path/filepath"
 	"sort"
@@ -27,12 +28,13 @@ import (
 	"verif/harness/inproc"
 	"verif/harness/lalclient"
 	"verif/harness/memconn"
+	"verif/harness/stub"
 	"verif/ref/rtspref"
 )
 
 // ---- kick ---------------------------------------------------------------------
 
-var kickKinds = []string{"rtmp-pub", "rtmp-sub", "flv-sub", "wsflv-sub", "ts-sub", "rtsp-pub", "rtsp-sub"}
+var kickKinds = []string{"rtmp-pub", "rtmp-sub", "flv-sub", "wsflv-sub", "ts-sub", "wsts-sub", "rtsp-pub", "rtsp-sub", "wsrtsp-sub", "ps-pub-udp", "ps-pub-tcp", "pull"}
 
 type KickCase struct {
 	Kind     string `json:"kind"`
@@ -73,10 +75,37 @@ func sessionIDByAddr(s *inproc.Server, stream, addr string) string {
 	return ""
 }
 
+// idListed reports whether the stat API lists the session id for the stream (publisher, pull or subscriber).
+func idListed(s *inproc.Server, stream, id string) bool {
+	var sg *base.StatGroup
+	s.Call("StatGroup", func() { sg = s.SM.StatGroup(stream) })
+	if sg == nil {
+		return false
+	}
+	if sg.StatPub.SessionId == id || sg.StatPull.SessionId == id {
+		return true
+	}
+	for _, x := range sg.StatSubs {
+		if x.SessionId == id {
+			return true
+		}
+	}
+	return false
+}
+
+// The kick oracle judges three promises separately:
+//   - disconnected: the client of the kicked session sees the end of its connection.  If it does not within
+//     DeliverTimeout the verdict rests on the state of the connection alone: lal never closed its end although
+//     the API acknowledged the kick (kick/session-not-disconnected);
+//   - no longer a session: once lal's handler for the connection has returned (its teardown is complete) the stat
+//     API must not list the id any more (kick/session-still-listed);
+//   - no further service: a kicked publisher's name is free again (a legitimate publisher is accepted:
+//     kick/kicked-input-still-holds-stream).
 func runKick(c KickCase) *pbt.Violation {
 	const stream = "c14kick"
 	s := inproc.New(inproc.Config{RtmpGopNum: 1, FlvGopNum: 1, TsGopNum: 1})
 	defer s.Close()
+	defer closeWsConns(s)
 	var feeder *lalclient.Publisher
 	isSub := strings.HasSuffix(c.Kind, "-sub")
 	if isSub {
@@ -88,8 +117,19 @@ func runKick(c KickCase) *pbt.Violation {
 		sendItems(feeder, gopItems(0, 1))
 		feeder.WaitIdle()
 	}
-	var conn *memconn.Conn
-	var ended func() bool
+	var conn *memconn.Conn      // client end of an in-memory session
+	var ended func() bool       // the client saw the end of its connection
+	var handlerDone func() bool // lal's handler for the connection has returned
+	id := ""
+	rtspEnded := func(rc *rtspref.Client) func() bool {
+		return func() bool {
+			for {
+				if _, err := rc.ReadFrame(); err != nil {
+					return !isTimeout(err)
+				}
+			}
+		}
+	}
 	switch c.Kind {
 	case "rtmp-pub":
 		p := lalclient.NewPublisher(s, "live", stream, 0)
@@ -116,27 +156,23 @@ func runKick(c KickCase) *pbt.Violation {
 			sub.WaitPred(func([]byte) bool { return false }, lalclient.DeliverTimeout)
 			return conn.EOFPending()
 		}
+	case "wsts-sub":
+		sub := newRawSub(s, "/live/"+stream+".ts", true)
+		conn = sub.Conn
+		ended = func() bool { return sub.waitEOF(lalclient.DeliverTimeout) }
 	case "rtsp-pub":
-		conn = s.RtspConn()
-		_ = conn.SetReadDeadline(time.Now().Add(lalclient.DeliverTimeout))
-		rc := rtspref.NewClient(conn)
+		var rc *rtspref.Client
+		conn, rc = rtspClient(s, false)
 		_, sps, pps := gen.ParamSets("avc", 0)
 		tracks := []rtspref.Track{{Media: "video", PT: 96, Encoding: "H264", ClockRate: 90000, Fmtp: rtspref.H264Fmtp(sps, pps), Control: "streamid=0"}}
 		if _, err := rc.Publish("rtsp://127.0.0.1:5544/live/"+stream, tracks); err != nil {
 			return inconclusive("kick-rtsp-pub")
 		}
 		conn.WaitPeerIdle(lalclient.IdleTimeout)
-		ended = func() bool {
-			for {
-				if _, err := rc.ReadFrame(); err != nil {
-					return !isTimeout(err)
-				}
-			}
-		}
-	case "rtsp-sub":
-		conn = s.RtspConn()
-		_ = conn.SetReadDeadline(time.Now().Add(lalclient.DeliverTimeout))
-		rc := rtspref.NewClient(conn)
+		ended = rtspEnded(rc)
+	case "rtsp-sub", "wsrtsp-sub":
+		var rc *rtspref.Client
+		conn, rc = rtspClient(s, c.Kind == "wsrtsp-sub")
 		uri := "rtsp://127.0.0.1:5544/live/" + stream
 		r, err := rc.Describe(uri)
 		if err != nil || r.Status != 200 {
@@ -146,12 +182,93 @@ func runKick(c KickCase) *pbt.Violation {
 			return inconclusive("kick-rtsp-play")
 		}
 		conn.WaitPeerIdle(lalclient.IdleTimeout)
-		ended = func() bool {
-			for {
-				if _, err := rc.ReadFrame(); err != nil {
-					return !isTimeout(err)
+		ended = rtspEnded(rc)
+	case "ps-pub-udp", "ps-pub-tcp":
+		tcp := 0
+		if c.Kind == "ps-pub-tcp" {
+			tcp = 1
+		}
+		var resp base.ApiCtrlStartRtpPubResp
+		s.Call("CtrlStartRtpPub", func() {
+			resp = s.SM.CtrlStartRtpPub(base.ApiCtrlStartRtpPubReq{StreamName: stream, Port: 0, TimeoutMs: 60000, IsTcpFlag: tcp})
+		})
+		if resp.ErrorCode != base.ErrorCodeSucc || resp.Data.SessionId == "" {
+			return inconclusive("kick-start-rtp-pub")
+		}
+		id = resp.Data.SessionId
+		if tcp == 1 {
+			tc, err := net.DialTimeout("tcp", fmt.Sprintf("127.0.0.1:%d", resp.Data.Port), lalclient.IdleTimeout)
+			if err != nil {
+				return inconclusive("kick-rtp-pub-dial")
+			}
+			defer tc.Close()
+			// two bytes of a length prefix, so that lal has accepted the connection and is reading from it
+			_, _ = tc.Write([]byte{0, 12})
+			time.Sleep(5 * time.Millisecond)
+			ended = func() bool {
+				_ = tc.SetReadDeadline(time.Now().Add(lalclient.DeliverTimeout))
+				buf := make([]byte, 256)
+				for {
+					if _, err := tc.Read(buf); err != nil {
+						return !isTimeout(err)
+					}
 				}
 			}
+		}
+		// the session is over when it is no longer the stream's publisher (lal's own goroutine removes it)
+		handlerDone = func() bool {
+			deadline := time.Now().Add(lalclient.DeliverTimeout)
+			for time.Now().Before(deadline) {
+				if !idListed(s, stream, id) {
+					return true
+				}
+				time.Sleep(2 * time.Millisecond)
+			}
+			return false
+		}
+	case "pull":
+		origin, err := stub.NewRtmpStub()
+		if err != nil {
+			return inconclusive("kick-stub")
+		}
+		defer origin.Close()
+		var resp base.ApiCtrlStartRelayPullResp
+		s.Call("CtrlStartRelayPull", func() {
+			resp = s.SM.CtrlStartRelayPull(base.ApiCtrlStartRelayPullReq{Url: "rtmp://" + origin.Addr + "/live/" + stream, StreamName: stream,
+				PullTimeoutMs: 10000, PullRetryNum: 0, AutoStopPullAfterNoOutMs: -1})
+		})
+		if resp.ErrorCode != base.ErrorCodeSucc || resp.Data.SessionId == "" {
+			return inconclusive("kick-start-pull")
+		}
+		id = resp.Data.SessionId
+		oc := origin.Accept(lalclient.DeliverTimeout)
+		if oc == nil {
+			return inconclusive("kick-pull-no-attempt")
+		}
+		if oc.Handshake() != nil || oc.ServeUntilPlayOrPublish() != nil || oc.AcceptPlay() != nil {
+			return inconclusive("kick-pull-handshake")
+		}
+		for _, it := range append(headerItems(), gopItems(0, 1)...) {
+			_ = oc.SendMedia(it.TypeID(), it.Ts, it.Payload(codecs))
+		}
+		// attached once the stat API names it as the stream's pull session
+		deadline := time.Now().Add(lalclient.DeliverTimeout)
+		for !idListed(s, stream, id) {
+			if !time.Now().Before(deadline) {
+				return inconclusive("kick-pull-not-attached")
+			}
+			time.Sleep(2 * time.Millisecond)
+		}
+		ended = func() bool { return oc.WaitPeerClose(lalclient.DeliverTimeout) }
+		handlerDone = func() bool {
+			deadline := time.Now().Add(lalclient.DeliverTimeout)
+			for time.Now().Before(deadline) {
+				if !idListed(s, stream, id) {
+					return true
+				}
+				time.Sleep(2 * time.Millisecond)
+			}
+			return false
 		}
 	default:
 		panic(pbt.HarnessError{Msg: "bad kind " + c.Kind})
@@ -160,9 +277,13 @@ func runKick(c KickCase) *pbt.Violation {
 	if c.Bystand {
 		by = lalclient.NewFlvSub(s, "live", stream, false)
 	}
-	addr := conn.LocalAddr().String()
-	id := sessionIDByAddr(s, stream, addr)
-	if id == "" {
+	addr := ""
+	if conn != nil {
+		addr = conn.LocalAddr().String()
+		id = sessionIDByAddr(s, stream, addr)
+		handlerDone = func() bool { return conn.WaitPeerDone(lalclient.DeliverTimeout) }
+	}
+	if id == "" || !idListed(s, stream, id) {
 		return inconclusive("kick-session-not-listed-" + c.Kind)
 	}
 	if c.SendMore && feeder != nil {
@@ -176,12 +297,40 @@ func runKick(c KickCase) *pbt.Violation {
 	if c.SendMore && feeder != nil {
 		sendItems(feeder, gopItems(2000, 3))
 	}
-	if !ended() {
-		// corroborate: the kick was acknowledged, the server side never closed its end and the session is still attached
-		if !conn.PeerGone() && sessionIDByAddr(s, stream, addr) == id {
-			return pbt.V("kick/session-not-disconnected", "the %s session %s was kicked (API answered success) but %v later its connection is still open and the session still listed", c.Kind, id, lalclient.DeliverTimeout)
+	// promise 1: disconnected
+	if ended != nil && !ended() {
+		if conn != nil && conn.PeerGone() {
+			return inconclusive("kick-eof-not-seen") // lal closed its end; the client-side reader is late
 		}
-		return inconclusive("kick-eof-not-seen")
+		return pbt.V("kick/session-not-disconnected", "the %s session %s was kicked (API answered success) but %v later lal has not closed its end of the connection (still listed: %v)",
+			c.Kind, id, lalclient.DeliverTimeout, idListed(s, stream, id))
+	}
+	// promise 2: no longer a session
+	if !handlerDone() {
+		if ended != nil {
+			// the connection is closed but the session never left the stream
+			if idListed(s, stream, id) {
+				return pbt.V("kick/session-still-listed", "the %s session %s was kicked and its connection closed, but %v later the stat API still lists it", c.Kind, id, lalclient.DeliverTimeout)
+			}
+			return inconclusive("kick-handler-not-done")
+		}
+		return pbt.V("kick/session-still-listed", "the %s session %s was kicked (API answered success) but %v later the stat API still lists it", c.Kind, id, lalclient.DeliverTimeout)
+	}
+	if idListed(s, stream, id) {
+		return pbt.V("kick/session-still-listed", "the %s session %s was kicked, its connection is closed and lal's handler has returned, but the stat API still lists it", c.Kind, id)
+	}
+	// promise 3: a kicked input no longer holds the stream
+	if !isSub {
+		legit := lalclient.NewPublisher(s, "live", stream, 0)
+		if legit.Err == nil {
+			sendItems(legit, headerItems())
+		}
+		switch pubState(s, legit, stream) {
+		case outRejected:
+			return pbt.V("kick/kicked-input-still-holds-stream", "after the %s session %s was kicked and had left the stat API, a new RTMP publisher of the stream was refused: %v", c.Kind, id, legit.Err)
+		case outInconclusive:
+			return inconclusive("kick-legit-pub")
+		}
 	}
 	_ = by
 	return s.PanicViolation()
@@ -210,9 +359,17 @@ type BlacklistCase struct {
 
 func genBlacklist(t *rapid.T) BlacklistCase {
 	c := BlacklistCase{Blocked: rapid.IntRange(2, 250).Draw(t, "blocked"), Target: rapid.IntRange(0, 3).Draw(t, "target"), Probes: rapid.IntRange(1, 4).Draw(t, "probes")}
-	if pbt.Thorough() && rapid.IntRange(0, 2).Draw(t, "waitClass") == 0 {
+	// the expiry leg needs real time (about 4.5 s): a third of the cases in thorough, about one per shard in quick
+	waitOneIn := 20
+	if pbt.Thorough() {
+		waitOneIn = 3
+	}
+	if rapid.IntRange(1, waitOneIn).Draw(t, "waitClass") == 1 {
 		c.Wait = true
-		c.DurationSec = rapid.IntRange(1, 2).Draw(t, "dur")
+		c.DurationSec = 1
+		if pbt.Thorough() {
+			c.DurationSec = rapid.IntRange(1, 2).Draw(t, "dur")
+		}
 	} else {
 		c.DurationSec = rapid.SampledFrom([]int{30, 60, 3600, 86400}).Draw(t, "dur")
 	}
@@ -358,7 +515,7 @@ func genBlHist(t *rapid.T) BlHistCase {
 	a := rapid.IntRange(2, 120).Draw(t, "addr0")
 	c := BlHistCase{Addrs: []int{a, a + rapid.IntRange(1, 120).Draw(t, "addr1")}, Target: rapid.IntRange(0, 3).Draw(t, "target")}
 	c.Pattern = rapid.SampledFrom([]string{"extend-active", "extend-active", "extend-active", "readd-after-silent-expiry", "readd-after-silent-expiry", "readd-after-silent-expiry",
-		"shorter-after-longer", "readd-same", "other-address-in-between"}).Draw(t, "pattern")
+		"shorter-after-longer", "readd-same", "other-address-in-between", "expires-and-served-again"}).Draw(t, "pattern")
 	long := rapid.SampledFrom([]int{30, 3600}).Draw(t, "long")
 	short := 1
 	if pbt.Thorough() {
@@ -396,6 +553,13 @@ func genBlHist(t *rapid.T) BlHistCase {
 		add(0, long)
 		probe(0)
 		add(0, long)
+		probe(0)
+	case "expires-and-served-again":
+		// two short entries, the second added while the first is active; 2.5 s after the later expiry the address is served
+		add(0, short)
+		probe(0)
+		add(0, short)
+		sleep(short*1000 + 2600)
 		probe(0)
 	default:
 		add(0, long)
